@@ -572,7 +572,15 @@ def _optimizers_interpreted(ctx, rid, repo):
             w.add_class(mc_)
             init_pars = [at("i0"), at("i1")]
             bounds = [(at("l0"), at("h0")), (at("l1"), at("h1"))]
+            bounds_before = [[str(to_poly(y)) for y in x] for x in bounds]
             mobj = w.call_method(inst, "_get_minimizer", [Obj("OBJECTIVE"), init_pars, bounds], {"fixed_vals": [(c(0), at("v0"))], "do_grad": False, "par_names": None})
+            try:
+                bounds_after = [[str(to_poly(y)) for y in x] for x in bounds]
+            except (Undecided, TypeError):
+                bounds_after = "<no longer pairs of numbers>"
+            if bounds_after != bounds_before:
+                ctx.violated(rid, mc_.methods["_get_minimizer"], f"the caller's bounds [{lab}]", "building the Minuit object rewrites the bounds list the CALLER passed (shim hands it through uncopied): after a fit that holds a parameter on its bound, the caller's next fit with the same list runs with other limits", expected=str(bounds_before), found=str(bounds_after))
+                continue
             a, k = made[-1]
             start = [str(to_poly(x)) for x in a[1]]
             lim = mobj.attrs.get("limits")
